@@ -496,8 +496,13 @@ def _run(process_program, process_res):
             tmpdir = tempfile.mkdtemp()
             res = []
             batches = get_batches(iteration - 1)
+            # Draw the package names of the whole batch up front: generating
+            # a program resets the word pool, so names drawn afterwards could
+            # repeat the ones given to earlier programs of the same batch.
+            batch_packages = [(utils.random.word(), utils.random.word())
+                              for _ in range(batches)]
             for i in range(batches):
-                packages = (utils.random.word(), utils.random.word())
+                packages = batch_packages[i]
                 dirname = os.path.join(tmpdir, 'src')
                 pid = iteration + i
                 r = process_program(pid, dirname, packages)
